@@ -106,7 +106,8 @@ def main(argv=None):
             from vlib import engine
             from vlib.ctx import ExploreCtx
             res = engine.explore(fn, lambda: ExploreCtx(params), per_path_timeout=ns.path_timeout,
-                                 timeout=ns.timeout, max_cex=ns.max_cex)
+                                 timeout=ns.timeout, max_cex=ns.max_cex,
+                                 format_tokens=getattr(mod, 'FORMAT_TOKENS', True))
             out.update(res)
         else:
             from vlib.ctx import ReplayCtx, ReplayOutOfBound, from_jsonable
